@@ -15,11 +15,14 @@ LEVEL_TEXT = (
     "Euclidean one for r >= 0), ascending and each once, with the current weights and points[k] = parent.points[indices[k]]; "
     "infinite radius = whole grid; empty sphere = empty grid; selection by int / NumPy int / slice (CPython slice "
     "semantics) / index array / mask returns the selected points and weights with the same class and domain. "
-    "Tie to the code: hand model compared with the implementation on random operation histories for every grid class."
+    "Tie to the code: the setters, get_localgrid and __getitem__ of basegrid.py are translated statement by statement "
+    "(harness/translate/localgrid.py -> Gen/LocalGrid.lean, regenerated on every run) and proved equal to the hand model "
+    "(gen_*_eq, genStep_eq_step), so the theorems hold for the generated text; the driver executes the generated "
+    "definitions, which are compared with the implementation on random operation histories for every grid class."
 )
 TECHNIQUE = "Lean 4 proof (state-machine invariant over all op histories) + differential op histories + brute-force oracle"
-GEN = []
-LEAN_MODULES = ["GridVerif.Props.C10"]
+GEN = ["localgrid"]
+LEAN_MODULES = ["GridVerif.Props.C10", "GridVerif.Props.C10.Gen"]
 THEOREMS = [
     "GridVerif.C10.inv_init",
     "GridVerif.C10.inv_step",
@@ -41,6 +44,18 @@ THEOREMS = [
     "GridVerif.C10.select_slice_default_step",
     "GridVerif.C10.getitem_unsupported",
     "GridVerif.C10.setters_spec",
+    # tie to the source: theorems about the generated definitions (Gen/LocalGrid.lean)
+    "GridVerif.C10.gen_setter_effects",
+    "GridVerif.C10.gen_points_set_eq",
+    "GridVerif.C10.gen_weights_set_eq",
+    "GridVerif.C10.gen_query_eq",
+    "GridVerif.C10.getitem_branches",
+    "GridVerif.C10.gen_getitem_eq",
+    "GridVerif.C10.gen_oned_getitem_eq",
+    "GridVerif.C10.genStep_eq_step",
+    "GridVerif.C10.genRun_eq_run",
+    "GridVerif.C10.gen_inv_step",
+    "GridVerif.C10.gen_localgrid_correct",
 ]
 RULE = (
     "one evaluation = one operation (get_localgrid / points= / weights= / __getitem__) of a random history run on the "
@@ -52,7 +67,8 @@ RULE = (
 )
 TRUSTED_BASE = [
     "Lean 4.33 kernel; axioms propext, Classical.choice, Quot.sound only (audited per theorem)",
-    "hand model Model/LocalGrid.lean of get_localgrid / setters / __getitem__, tied by differential op histories",
+    "translator harness/translate/localgrid.py (Python AST -> Gen/LocalGrid.lean) and the vocabulary Model/LocalGridPy.lean it maps NumPy/SciPy expressions to; the generated definitions are executed by the driver and compared with the implementation on differential op histories",
+    "hand model Model/LocalGrid.lean (proved equal to the generated definitions); the class dispatch (AtomGrid has no points setter, OneDGrid overrides __getitem__) and the constructors of the non-periodic classes remain hand-modelled",
     "contract of scipy cKDTree.query_ball_point (= exactly the positions with distance <= r); NumPy indexing semantics as modelled",
 ]
 ASSUMPTIONS = [
@@ -96,6 +112,57 @@ def _weights(rng, n):
     return np.array([rng.choice([1.0, 0.5, rng.uniform(-1, 3)]) for _ in range(n)])
 
 
+def _dress(rng, a, tags=None):
+    """The same numbers in another dtype / memory layout (class 2 of the round-2 audit):
+    float32 (values are rounded to float32 first, so the float64 computation on the stored
+    values is exact), int64/int32 (only for integral values), a non-contiguous view, a read-only
+    array, Fortran order.  -> array (the caller reads the values back from the object)."""
+    a = np.asarray(a, dtype=float)
+    k = rng.choice(["f64"] * 6 + ["f32", "f32", "int", "strided", "readonly", "fortran"])
+    if k == "int":
+        a = np.round(a)        # (the caller reads the values back from the array it gets)
+    if k == "f32":
+        out = a.astype(np.float32)
+    elif k == "int":
+        out = a.astype(rng.choice([np.int64, np.int32]))
+    elif k == "strided":
+        big = np.zeros((2 * len(a),) + a.shape[1:]) if a.ndim else a
+        if a.ndim:
+            big[::2] = a
+            out = big[::2]
+        else:
+            out = a
+    elif k == "readonly":
+        out = a.copy()
+        out.flags.writeable = False
+    elif k == "fortran" and a.ndim == 2:
+        out = np.asfortranarray(a)
+    else:
+        out = a.copy()
+    if tags is not None:
+        tags.append(k)
+    return out
+
+
+def _clone(a):
+    """A new array object with the same values, dtype, layout kind and writeable flag."""
+    a = np.asarray(a)
+    if a.ndim >= 1 and len(a) > 1 and not a.flags.c_contiguous and not a.flags.f_contiguous:
+        big = np.zeros((2 * len(a),) + a.shape[1:], dtype=a.dtype)
+        big[::2] = a
+        out = big[::2]
+    elif a.ndim == 2 and a.flags.f_contiguous and not a.flags.c_contiguous:
+        out = np.asfortranarray(a.copy())
+    else:
+        out = a.copy()
+    out.flags.writeable = a.flags.writeable
+    return out
+
+
+def _same_value(x, y):
+    return bool(np.array_equal(np.asarray(x, dtype=float), np.asarray(y, dtype=float)))
+
+
 def _size(rng):
     return rng.choice([0, 1, 1, 2, 2, 3, 3, 4, 5, 7, 12])
 
@@ -115,13 +182,13 @@ def _build(kind, rng, M):
     st = rng.random() < 0.4
     if kind == "grid":
         n, d = _size(rng), rng.choice([1, 2, 3])
-        return bg.Grid(_coords(rng, (n, d), st), _weights(rng, n))
+        return bg.Grid(_dress(rng, _coords(rng, (n, d), st)), _dress(rng, _weights(rng, n)))
     if kind == "grid1":
         n = _size(rng)
-        return bg.Grid(_coords(rng, (n,), st), _weights(rng, n))
+        return bg.Grid(_dress(rng, _coords(rng, (n,), st)), _dress(rng, _weights(rng, n)))
     if kind == "oned":
         n = _size(rng)
-        p = np.sort(_coords(rng, (n,), st))
+        p = np.sort(_dress(rng, _coords(rng, (n,), st)))
         dom = None
         if rng.random() < 0.6:
             lo = (p.min() if n else 0.0) - rng.choice([0.0, 0.5, 5e-8])
@@ -129,7 +196,7 @@ def _build(kind, rng, M):
             dom = (float(lo), float(hi)) if n or rng.random() < 0.5 else None
         if n == 0 and dom is not None:
             dom = None  # np.min of an empty array: such a OneDGrid cannot be constructed
-        return bg.OneDGrid(p, _weights(rng, n), dom)
+        return bg.OneDGrid(p, _dress(rng, _weights(rng, n)), dom)
     if kind in ("atom", "mol"):
         def atom():
             nr = rng.choice([1, 1, 2])
@@ -194,9 +261,13 @@ def _mat(a):
     return fmat(a.reshape(len(a), -1))
 
 
+def _margin_ok(d, r):
+    return all(abs(x - r) > 1e-7 * max(x, r) or (x == 0.0 and r == 0.0) for x in d)
+
+
 def _radius(rng, pts, c, oned):
     """A radius class and value, keeping a relative margin from every point distance."""
-    rows = pts.reshape(len(pts), -1).astype(float) if len(pts) else np.zeros((0, 1))
+    rows = np.asarray(pts, dtype=float).reshape(len(pts), -1) if len(pts) else np.zeros((0, 1))
     cc = np.atleast_1d(np.asarray(c, dtype=float))
     d = np.sqrt(((rows - cc) ** 2).sum(axis=1)) if len(rows) else np.zeros(0)
     cls = rng.choice(["zero", "tiny", "inside", "inside", "inside", "huge", "inf", "empty"])
@@ -207,21 +278,42 @@ def _radius(rng, pts, c, oned):
     elif cls == "huge":
         r = rng.choice([1e6, 1e100, 1e300])
     elif cls == "inf":
-        return cls, math.inf
+        return cls, math.inf, d
     elif cls == "empty":
         pos = d[d > 0]
         r = 0.5 * float(pos.min()) if len(pos) else 0.25
     else:
         r = float(rng.choice(list(d))) * rng.choice([0.5, 1.0, 1.5]) + rng.choice([0.0, 0.1]) if len(d) else 1.0
     for _ in range(60):
-        if all(abs(x - r) > 1e-7 * max(x, r) or (x == 0.0 and r == 0.0) for x in d):
+        if _margin_ok(d, r):
             break
         r = r * (1 + 3e-6) + 1e-9
-    return cls, float(r)
+    return cls, float(r), d
+
+
+def _radius_obj(rng, r, d):
+    """The radius as another scalar type with the *same* comparison outcome against every point
+    distance (np.float64, np.float32, Python int, np.int64, np.float32(inf)); the numeric value the
+    model receives is float(<object>).  -> (object, kind)"""
+    k = rng.choice(["float"] * 5 + ["f64", "f32", "f32", "int", "npint"])
+    if math.isinf(r):
+        return (np.float32(r), "f32") if k in ("f32", "int", "npint") else ((np.float64(r), "f64") if k == "f64" else (r, "float"))
+    if k == "f64":
+        return np.float64(r), k
+    if k == "f32" and r < 1e38:
+        r32 = float(np.float32(r))
+        if _margin_ok(d, r32):
+            return np.float32(r32), k
+    if k in ("int", "npint") and 1.0 <= r < 1e9:
+        ri = float(int(r))
+        if _margin_ok(d, ri):
+            return (int(ri), k) if k == "int" else (np.int64(int(ri)), k)
+    return r, "float"
 
 
 def _centre(rng, g, oned, dim):
-    pts = np.asarray(g.points)
+    """-> (numeric centre as float64 scalar/array, how)"""
+    pts = np.asarray(g.points, dtype=float)
     how = rng.choice(["on", "on", "near", "near", "far", "origin"])
     if how == "on" and len(pts):
         c = np.array(pts[rng.randrange(len(pts))], dtype=float)
@@ -231,21 +323,75 @@ def _centre(rng, g, oned, dim):
         c = np.full(() if oned else (dim,), rng.choice([1e3, -1e5]))
     else:
         c = np.zeros(() if oned else (dim,))
+    # a quarter of the centres are made integral / float32-representable so that the other
+    # scalar and container kinds can carry exactly the same numbers
+    q = rng.random()
+    if q < 0.15:
+        c = np.round(c)
+    elif q < 0.3:
+        c = c.astype(np.float32).astype(float)
+    return (float(c) if oned else c), how
+
+
+def _centre_obj(rng, c, oned):
+    """The centre in another scalar / container kind holding exactly the same numbers:
+    1-D: float, np.float64, 0-d array, np.float32, Python int, np.int64;  N-D: float64 array, list,
+    tuple, float32 array, int array, non-contiguous view, read-only array.  -> (object, kind)"""
     if oned:
-        c = float(c)
-        return rng.choice([c, np.float64(c), np.array(c)]), how
-    return c, how
+        ks = ["float", "f64", "arr0"]
+        if float(np.float32(c)) == c:
+            ks += ["f32", "arr0f32"]
+        if c == round(c) and abs(c) < 1e9:
+            ks += ["int", "int", "npint"]
+        k = rng.choice(ks)
+        return {"float": lambda: c, "f64": lambda: np.float64(c), "arr0": lambda: np.array(c), "f32": lambda: np.float32(c),
+                "arr0f32": lambda: np.array(c, dtype=np.float32), "int": lambda: int(c), "npint": lambda: np.int64(int(c))}[k](), k
+    ks = ["arr"] * 4 + ["list", "tuple", "strided", "readonly"]
+    if np.array_equal(c.astype(np.float32).astype(float), c):
+        ks += ["f32"]
+    if np.array_equal(np.round(c), c) and np.all(np.abs(c) < 1e9):
+        ks += ["intarr", "intlist"]
+    k = rng.choice(ks)
+    if k == "list":
+        return c.tolist(), k
+    if k == "tuple":
+        return tuple(c.tolist()), k
+    if k == "strided":
+        big = np.zeros(2 * len(c))
+        big[::2] = c
+        return big[::2], k
+    if k == "readonly":
+        o = c.copy()
+        o.flags.writeable = False
+        return o, k
+    if k == "f32":
+        return c.astype(np.float32), k
+    if k == "intarr":
+        return c.astype(np.int64), k
+    if k == "intlist":
+        return [int(v) for v in c], k
+    return c, k
 
 
 def _index(rng, n):
-    """-> (kind, python index object, driver tokens)"""
-    k = rng.choice(["int", "npint", "slice", "slice", "array", "mask"])
+    """-> (kind, python index object, driver tokens).  Besides Python/NumPy integers, slices, index
+    arrays and masks: Python lists of ints / of bools (NumPy reads them as index array / mask) and
+    slices, arrays, masks wrapped in a 1-tuple (NumPy reads `a[(s,)]` as `a[s]`)."""
+    k = rng.choice(["int", "npint", "slice", "slice", "array", "mask", "list", "boollist", "tuple"])
     bad = rng.random() < 0.12
+    wrap = (lambda o: o)
+    if k == "tuple":
+        k = rng.choice(["slice", "array", "mask"])
+        wrap = (lambda o: (o,))
+        tagk = "tuple-" + k
+    else:
+        tagk = k
     if k in ("int", "npint"):
         i = rng.randrange(-n, n) if n and not bad else rng.choice([n, -n - 1, n + 3])
         if k == "int":
             return k, i, f"gi i {i}"
-        ty = rng.choice([np.int64, np.int32, np.intp, np.int16, np.uint8]) if i >= 0 else rng.choice([np.int64, np.int32, np.int16])
+        ty = rng.choice([np.int64, np.int32, np.intp, np.int16, np.int8, np.uint8, np.uint16, np.uint64]) if 0 <= i < 100 \
+            else rng.choice([np.int64, np.int32, np.int16])
         return k, ty(i), f"gi n {i}"
     if k == "slice":
         def part(zero_ok=True):
@@ -253,22 +399,32 @@ def _index(rng, n):
                 return None
             return rng.randrange(-n - 2, n + 3)
         a, b = part(), part()
-        c = rng.choice([None, None, 1, 2, 3, -1, -2]) if not bad else 0
+        c = rng.choice([None, None, 1, 2, 3, -1, -2, -3, n + 1, -(n + 1)]) if not bad else 0
         t = lambda v: "N" if v is None else str(v)
-        return k, slice(a, b, c), f"gi s {t(a)} {t(b)} {t(c)}"
-    if k == "array":
+        return tagk, wrap(slice(a, b, c)), f"gi s {t(a)} {t(b)} {t(c)}"
+    if k in ("array", "list"):
         m = rng.randrange(0, 6)
         arr = [rng.randrange(-n, n) for _ in range(m)] if n else []
         if bad:
             arr.insert(rng.randrange(len(arr) + 1), rng.choice([n, -n - 1]))
-        return k, np.array(arr, dtype=rng.choice([np.int64, np.int32])), "gi a " + vec(arr)
+        if k == "list":
+            if not arr:
+                arr = [0] if n else [0]   # (an empty Python list is a float index array for NumPy: not an index kind)
+                if not n:
+                    return "list", [0], "gi a 1 0"
+            return "list", list(arr), "gi a " + vec(arr)
+        return tagk, wrap(np.array(arr, dtype=rng.choice([np.int64, np.int32, np.int16]))), "gi a " + vec(arr)
     mlen = n if not bad else n + rng.choice([1, 2])
     if bad and n >= 2 and rng.random() < 0.5:
         mlen = n - 1   # (NumPy accepts a zero-length mask for any array: never generated)
     mk = [rng.random() < 0.5 for _ in range(mlen)]
     if rng.random() < 0.1:
         mk = [False] * mlen
-    return k, np.array(mk, dtype=bool), "gi m " + vec([int(b) for b in mk])
+    if k == "boollist":
+        if not mk:
+            return "mask", np.array(mk, dtype=bool), "gi m " + vec([int(b) for b in mk])
+        return "boollist", list(mk), "gi m " + vec([int(b) for b in mk])
+    return tagk, wrap(np.array(mk, dtype=bool)), "gi m " + vec([int(b) for b in mk])
 
 
 def _canon_local(lg):
@@ -293,14 +449,17 @@ def _descr(x):
 
 class History:
     """Generates one op at a time against a live implementation object, recording the
-    driver tokens, the implementation's canonical answers and a readable transcript."""
+    driver tokens, the implementation's canonical answers, a readable transcript and the
+    operations themselves (`self.ops`: callables of the object) so that the same history can be
+    replayed on a second build of the object."""
 
     def __init__(self, kind, g, rng, M):
         self.kind, self.g, self.rng, self.M = kind, g, rng, M
-        self.tokens, self.impl, self.text, self.tags = [], [], [], []
+        self.tokens, self.impl, self.text, self.tags, self.ops = [], [], [], [], []
         self.mutated_between = False
         self._seen_query = False
         self._mut_since = False
+        self._queries = []      # (token, text, tag, op) of earlier accepted queries, for repetition
 
     def shape(self):
         pts = self.g._points
@@ -311,46 +470,69 @@ class History:
         """Generate one op (outside any try), then run it on the implementation."""
         rng, g = self.rng, self.g
         oned, dim, n = self.shape()
-        k = rng.choice(["q", "q", "q", "sp", "sp", "sw", "gi"])
+        k = rng.choice(["q", "q", "q", "q2", "sp", "sp", "sw", "gi"])
         if self.kind == "mol" and k == "gi":
             k = "q"
-        if k == "q":
+        if k == "q2" and not self._queries:
+            k = "q"
+        LG = self.M["basegrid"].LocalGrid
+        if k == "q2":
+            # the very same query again (same arguments, possibly after reassignments): the answer
+            # must be for the object as it is now
+            tok, txt, tag, run = rng.choice(self._queries)
+            self.tokens.append(tok)
+            self.text.append(txt)
+            self.tags.append(tag + ":repeated")
+            if self._mut_since:
+                self.mutated_between = True
+            self._seen_query, self._mut_since = True, False
+        elif k == "q":
             c, how = _centre(rng, g, oned, dim)
-            rc, r = _radius(rng, np.asarray(g.points), c, oned)
+            rc, r, dist = _radius(rng, np.asarray(g.points), c, oned)
+            cobj, ck = _centre_obj(rng, c, oned)
+            robj, rk = _radius_obj(rng, r, dist)
             if rng.random() < 0.08:
                 what = rng.choice(["neg", "nan", "ninf", "shape"])
                 if what == "shape":
-                    c = np.zeros(dim + 1) if not oned else np.zeros(1)
+                    cobj = np.zeros(dim + 1) if not oned else np.zeros(1)
                 else:
                     r = {"neg": -abs(r) - 0.5 if math.isfinite(r) else -1.0, "nan": math.nan, "ninf": -math.inf}[what]
+                    robj = rng.choice([r, np.float64(r), np.float32(r)]) if what != "neg" else r
                 rc = "bad-" + what
-            cs = np.asarray(c)
-            self.tokens.append(("q s " + f2b(float(cs)) if cs.ndim == 0 else "q v " + fvec(cs)) + " " + f2b(r))
-            self.text.append(f"g.get_localgrid({_descr(c)}, {_descr(r)})")
+            cs = np.asarray(cobj)
+            csf = np.asarray(cobj, dtype=float)
+            rf = float(robj)
+            tok = ("q s " + f2b(float(csf)) if cs.ndim == 0 else "q v " + fvec(csf)) + " " + f2b(rf)
+            self.tokens.append(tok)
+            self.text.append(f"g.get_localgrid({_descr(cobj)}, {_descr(robj)})")
             self.tags.append(f"query:{rc}")
             if self._seen_query and self._mut_since:
                 self.mutated_between = True
             self._seen_query, self._mut_since = True, False
 
-            def run():
-                lg = g.get_localgrid(c, r)
-                if type(lg) is not self.M["basegrid"].LocalGrid:
+            def run(g, cobj=cobj, robj=robj, cs=cs):
+                lg = g.get_localgrid(cobj, robj)
+                if type(lg) is not LG:
                     return "wrong-type:" + type(lg).__name__
                 if not np.array_equal(np.asarray(lg.center), cs):
                     return "wrong-center"
                 return _canon_local(lg)
+            if not rc.startswith("bad-"):
+                self._queries.append((tok, self.text[-1], f"query:{rc}", run))
+            self.ctag = f"centre:{ck}", f"radius:{rk}"
         elif k == "sp":
             bad = rng.random() < 0.1
             how = rng.choice(["fresh", "shift", "permute", "far"])
             old = np.asarray(g.points)
+            oldf = np.asarray(old, dtype=float)
             if how == "fresh" or n == 0:
                 new = _coords(rng, old.shape, rng.random() < 0.4)
             elif how == "shift":
-                new = old + rng.choice([0.5, -1.25, 3.0])
+                new = oldf + rng.choice([0.5, -1.25, 3.0])
             elif how == "permute":
-                new = old[::-1].copy()
+                new = oldf[::-1].copy()
             else:
-                new = old * 1.0 + 1e3
+                new = oldf * 1.0 + 1e3
             if bad:
                 what = rng.choice(["rows", "cols", "ndim"])
                 if what == "rows":
@@ -359,36 +541,52 @@ class History:
                     new = _coords(rng, (n, dim + 1), False)
                 else:
                     new = _coords(rng, (n,) if not oned else (n, 1), False)
+            dk = []
+            new = _dress(rng, new, dk)
+            newf = np.asarray(new, dtype=float)
             ncol = 1 if new.ndim == 1 else new.shape[1]
-            self.tokens.append(f"sp {int(new.ndim == 1)} " + (fmat(new.reshape(len(new), ncol)) if len(new) else f"0 {ncol}"))
+            self.tokens.append(f"sp {int(new.ndim == 1)} " + (fmat(newf.reshape(len(new), ncol)) if len(new) else f"0 {ncol}"))
             # a third of the valid reassignments update the grid's own array in place and then assign
             # that very object again (p = g.points; p[...] = new; g.points = p): still a reassignment
-            same_obj = (not bad) and n > 0 and new.shape == old.shape and rng.random() < 0.35
+            same_obj = ((not bad) and n > 0 and new.shape == old.shape and rng.random() < 0.35 and self.kind != "atom"
+                        and old.dtype == np.float64 and old.flags.writeable)
             if same_obj:
-                self.text.append(f"p = g.points; p[...] = {_descr(new)}; g.points = p")
+                self.text.append(f"p = g.points; p[...] = {_descr(newf)}; g.points = p")
             else:
                 self.text.append(f"g.points = {_descr(new)}")
-            self.tags.append("setpoints:" + ("bad" if bad else how) + (":same-object" if same_obj else ""))
+            self.tags.append("setpoints:" + ("bad" if bad else how) + (":same-object" if same_obj else ":" + dk[0]))
             self._mut_since = True
 
-            def run():
+            def run(g, new=new, newf=newf, same_obj=same_obj):
                 if same_obj:
                     cur = g.points
-                    cur[...] = new
+                    cur[...] = newf
                     g.points = cur
                 else:
-                    g.points = new
+                    g.points = _clone(new)   # (a new object per run: the grid keeps it and a later same-object op edits it)
                 return "D"
         elif k == "sw":
             bad = rng.random() < 0.1
-            new = _weights(rng, n + (1 if bad else 0))
-            self.tokens.append("sw " + fvec(new))
-            self.text.append(f"g.weights = {_descr(new)}")
-            self.tags.append("setweights:" + ("bad" if bad else "ok"))
+            dk = []
+            new = _dress(rng, _weights(rng, n + (1 if bad else 0)), dk)
+            newf = np.asarray(new, dtype=float)
+            oldw = g._weights
+            same_obj = (not bad) and n > 0 and rng.random() < 0.3 and oldw.dtype == np.float64 and oldw.flags.writeable
+            self.tokens.append("sw " + fvec(newf))
+            if same_obj:
+                self.text.append(f"w = g.weights; w[...] = {_descr(newf)}; g.weights = w")
+            else:
+                self.text.append(f"g.weights = {_descr(new)}")
+            self.tags.append("setweights:" + ("bad" if bad else "ok") + (":same-object" if same_obj else ":" + dk[0]))
             self._mut_since = True
 
-            def run():
-                g.weights = new
+            def run(g, new=new, newf=newf, same_obj=same_obj):
+                if same_obj:
+                    cur = g.weights
+                    cur[...] = newf
+                    g.weights = cur
+                else:
+                    g.weights = _clone(new)
                 return "D"
         else:
             for _try in range(20):
@@ -403,33 +601,57 @@ class History:
             self.tokens.append(tok)
             self.text.append(f"g[{_descr(idx)}]")
             self.tags.append("getitem:" + ik)
+            kind = self.kind
 
-            def run():
+            def run(g, idx=idx):
                 sub = g[idx]
                 if type(sub) is not type(g):
                     return "wrong-type:" + type(sub).__name__
                 dom = "0"
-                if self.kind == "oned" and sub.domain is not None:
+                if kind == "oned" and sub.domain is not None:
                     dom = f"1 {f2b(sub.domain[0])} {f2b(sub.domain[1])}"
-                return f"G {MODEL_CLS[self.kind]} {_mat(sub.points)} {fvec(sub.weights)} {dom}"
-        try:
-            self.impl.append(run())
-        except Exception as e:  # noqa: BLE001 - the exception class is the observation
-            self.impl.append("E " + _errtag(e))
+                return f"G {MODEL_CLS[kind]} {_mat(sub.points)} {fvec(sub.weights)} {dom}"
+        self.ops.append(run)
+        self.impl.append(_observe(run, g))
+
+
+def _observe(run, g):
+    try:
+        return run(g)
+    except Exception as e:  # noqa: BLE001 - the exception class is the observation
+        return "E " + _errtag(e)
 
 
 def corr(ctx: Ctx):
     M = _mods()
     rng = ctx.rng
-    nh = ctx.n(12000, 60000)
+    nh = ctx.n(9000, 45000)
     hs, lines = [], []
     for i in range(nh):
         kind = KINDS[i % len(KINDS)] if i < 4 * len(KINDS) else rng.choice(KINDS)
+        st0 = rng.getstate()
         g = build(kind, rng, M)
         head = header(kind, g)
         h = History(kind, g, rng, M)
+        h.ctor = getattr(g, "_gv_ctor", None)
         for _ in range(rng.choice([1, 2, 3, 3, 4, 5, 6, 8])):
             h.op()
+            for tg in getattr(h, "ctag", ()):
+                ctx.tagc(tg)
+            h.ctag = ()
+        # a quarter of the objects are built a second time from the same arguments and the same
+        # history is replayed on the second build (state carried between builds / calls)
+        h.second = None
+        if i % 4 == 0:
+            st1 = rng.getstate()
+            rng.setstate(st0)
+            g2 = build(kind, rng, M)
+            rng.setstate(st1)
+            if header(kind, g2) == head:
+                h.second = [_observe(run, g2) for run in h.ops]
+            else:
+                ctx.fail("corr", f"hist:{kind}:rebuild", f"{PATH[kind]}: a second build from the same arguments is another grid",
+                         witness={"class": PATH[kind], "constructor": h.ctor})
         hs.append(h)
         lines.append(f"{head} {len(h.tokens)} " + " ".join(h.tokens))
     answers = driver_batch(lines)
@@ -439,15 +661,26 @@ def corr(ctx: Ctx):
         if outs is None or len(outs) != len(h.impl):
             ctx.count(line, nontrivial=False, tag="hist:" + h.kind, n=len(h.impl))
             ctx.fail("corr", f"hist:{h.kind}:header", f"driver answered {ans[:80]!r} for a {h.kind} history of {len(h.impl)} ops",
-                     witness={"class": PATH[h.kind], "history": h.text})
+                     witness={"class": PATH[h.kind], "constructor": h.ctor, "history": h.text})
             continue
         ctx.count(line, nontrivial=h.mutated_between, tag="hist:" + h.kind, n=len(outs))
-        for j, (a, b) in enumerate(zip(h.impl, outs)):
-            ctx.tagc(h.tags[j] + (":error" if a.startswith("E ") else ""))
-            if a != b:
-                ctx.fail("corr", f"hist:{h.kind}:{h.tags[j].split(':')[0]}",
-                         f"{PATH[h.kind]}: op {j} `{h.text[j][:120]}` of the history: implementation {a[:100]!r}, model {b[:100]!r}",
-                         witness={"class": PATH[h.kind], "history": h.text[: j + 1], "implementation": a, "model": b})
+        runs = [("", h.impl)] + ([(" (second build of the same object)", h.second)] if h.second is not None else [])
+        if h.second is not None:
+            ctx.traces += 1
+            ctx.tagc("second-build", len(outs))
+        for label, impl in runs:
+            stop = False
+            for j, (a, b) in enumerate(zip(impl, outs)):
+                if not label:
+                    ctx.tagc(h.tags[j] + (":error" if a.startswith("E ") else ""))
+                if a != b:
+                    ctx.fail("corr", f"hist:{h.kind}:{h.tags[j].split(':')[0]}",
+                             f"{PATH[h.kind]}{label}: op {j} `{h.text[j][:120]}` of the history: implementation {a[:100]!r}, model {b[:100]!r}",
+                             witness={"class": PATH[h.kind], "kind": h.kind, "constructor": h.ctor, "history": h.text[: j + 1],
+                                      "implementation": a, "model": b})
+                    stop = True
+                    break
+            if stop:
                 break
 
 
@@ -548,6 +781,10 @@ def _check_query(ctx, kind, g, c, r, prev_pts, pre, path):
 
 def _py_select(n, idx):
     """Reference selection without NumPy indexing."""
+    if isinstance(idx, tuple) and len(idx) == 1:
+        idx = idx[0]
+    if isinstance(idx, list):
+        idx = np.array(idx, dtype=bool if (idx and isinstance(idx[0], bool)) else int)
     if isinstance(idx, (int, np.integer)) and not isinstance(idx, (bool, np.bool_)):
         return [list(range(n))[int(idx)]]
     if isinstance(idx, slice):
@@ -644,9 +881,11 @@ def oracle(ctx: Ctx, budget: str):
                     _check_periodic_query(ctx, g, c, rng, pre, path, brute_images)
                     pre.append("# (query)")
                     continue
-                _, r = _radius(rng, pts, c, oned)
+                _, r, dist = _radius(rng, pts, c, oned)
                 if kind == "periodic" and math.isinf(r):
                     r = 1e6
+                c, _ck = _centre_obj(rng, c, oned)
+                r, _rk = _radius_obj(rng, r, dist)
                 _check_query(ctx, kind, g, c, r, prev_pts, pre, path)
                 pre.append(f"g.get_localgrid({_descr(c)}, {_descr(r)})")
             elif k == "sp":
@@ -657,7 +896,13 @@ def oracle(ctx: Ctx, budget: str):
                     # constructor rejects it): reassign inside the domain only
                     lo, hi = max(g.domain[0], -50.0), min(g.domain[1], 50.0)
                     new = rng.choice([pts[::-1].copy(), np.array([rng.uniform(lo, hi) for _ in range(n)])])
-                if rng.random() < 0.35 and np.shape(new) == np.shape(pts) and n > 0:
+                if rng.random() < 0.4:
+                    cand = _dress(rng, new)     # (rounding to float32 / integers must not leave the domain of a OneDGrid)
+                    if not (kind == "oned" and g.domain is not None and n > 0
+                            and (float(np.min(cand)) < g.domain[0] or float(np.max(cand)) > g.domain[1])):
+                        new = cand
+                if rng.random() < 0.35 and np.shape(new) == np.shape(pts) and n > 0 and pts.dtype == np.float64 \
+                        and pts.flags.writeable and np.asarray(new).dtype == np.float64:
                     cur = g.points          # in-place update of the grid's own array, then the same
                     cur[...] = new          # object is assigned again
                     g.points = cur
@@ -668,12 +913,66 @@ def oracle(ctx: Ctx, budget: str):
                 if not np.array_equal(np.asarray(g.points), new):
                     ctx.fail("oracle", f"{path}.points:setter", f"{path}: points read back differ from the assigned array", witness={"history": pre})
             elif k == "sw":
-                new = _weights(rng, n)
+                new = _dress(rng, _weights(rng, n)) if rng.random() < 0.4 else _weights(rng, n)
                 g.weights = new
                 pre.append(f"g.weights = {_descr(new)}")
             else:
                 ik, idx, _ = _index(rng, n)
                 _check_getitem(ctx, kind, g, ik, idx, pre, path)
+
+
+def oracle_at(ctx: Ctx, failure):
+    """A correspondence disagreement on a history -> the property itself evaluated on the
+    implementation along that very history (every query against brute force, every selection
+    against the reference selection)."""
+    import ast
+    w = failure.witness or {}
+    if not (isinstance(w, dict) and w.get("constructor") and isinstance(w.get("history"), list) and w.get("kind") in PATH):
+        return
+    kind = w["kind"]
+    path = PATH[kind]
+    ctx._M = _mods()
+    ns = {}
+    exec(SNIP_HEAD, ns)
+    try:
+        g = eval(w["constructor"].split("  #")[0], ns)
+    except Exception as e:  # noqa: BLE001
+        ctx.info(f"oracle_at: cannot rebuild the object of the disagreement ({type(e).__name__})")
+        return
+    ns["g"] = g
+    pre = ["g = " + w["constructor"]]
+    prev_pts = None
+    for line in w["history"]:
+        try:
+            body = ast.parse(line).body
+        except SyntaxError:
+            return
+        st = body[0] if len(body) == 1 else None
+        if isinstance(st, ast.Expr) and isinstance(st.value, ast.Call) and ast.unparse(st.value.func) == "g.get_localgrid" and len(st.value.args) == 2:
+            c, r = (eval(ast.unparse(a), ns) for a in st.value.args)
+            try:
+                ok_args = np.asarray(c).shape == np.asarray(g.points).shape[1:] and float(r) >= 0
+            except Exception:  # noqa: BLE001
+                ok_args = False
+            if ok_args and len(np.asarray(g.points)):
+                _check_query(ctx, kind, g, c, r, prev_pts, pre, path)
+            else:
+                try:
+                    g.get_localgrid(c, r)
+                except Exception:  # noqa: BLE001
+                    pass
+        elif isinstance(st, ast.Expr) and isinstance(st.value, ast.Subscript) and ast.unparse(st.value.value) == "g":
+            idx = eval(ast.unparse(st.value.slice), ns)
+            if kind in ("grid", "grid1", "oned", "periodic"):
+                _check_getitem(ctx, kind, g, type(idx).__name__, idx, pre, path)
+        else:
+            if "points" in line:
+                prev_pts = np.array(g.points, copy=True)
+            try:
+                exec(line, ns)
+            except Exception:  # noqa: BLE001 - rejected reassignment
+                pass
+        pre.append(line)
 
 
 def _check_periodic_query(ctx, g, c, rng, pre, path, brute_images):
